@@ -24,10 +24,14 @@ def dump (b : Buf) : String :=
     showGet (b.getContent (x : Int) (y : Int)) ++ (if b.dirty (x : Int) (y : Int) then "!" else ".")
   s!"{b.w}x{b.h}:" ++ " ".intercalate cellsStr
 
+/-- combining-list token of an `S` op: `-` (the caller passed a nil slice) and `=` (an empty slice that is not nil, e.g.
+    Screen.SetCell's `ch[1:]`) are the same empty list of runes -/
+def combList (s : String) : List Int := if s = "=" then [] else intList s
+
 /-- one op; returns new buffer and an optional observation -/
 def stepOp (rw : Rune → Int) (b : Buf) (op : String) (fz : Bool := false) : Buf × Option String :=
   match words op with
-  | ["S", x, y, m, c, st] => (b.setContent rw (toInt! x) (toInt! y) (toInt! m) (intList c) (parseStyle st), none)
+  | ["S", x, y, m, c, st] => (b.setContent rw (toInt! x) (toInt! y) (toInt! m) (combList c) (parseStyle st), none)
   | ["F", r, st] => (b.fillV fz rw (toInt! r) (parseStyle st), none)
   | ["V", "fz"] => (b, none)
   | ["R", w, h] => (b.resize (toInt! w) (toInt! h), none)
